@@ -145,6 +145,11 @@ func TestChanSim(t *testing.T) {
 		if ticks > 0 {
 			tickRuns++
 		}
+		var o1, o2 string
+		run("syncmap", sc, func() { o1 = zzchan.SyncMapOrder(); o2 = zzchan.SyncMapOrder() })
+		if o1 != o2 || len(o1) != 6 {
+			t.Fatalf("syncmap: two fresh maps were walked in different orders: %q %q", o1, o2)
+		}
 		box := &zzchan.Box{}
 		run("method-values", sc, func() { box.Add(1); box.Add(2) }, func() { box.Add(3) }, func() { _ = box.N(); box.Add(4) })
 		if box.N() != 10 {
